@@ -38,8 +38,15 @@ TInit == InitWith([i \in Conns |-> "absent"], "refuse") /\ l = 1
 Pad(s) == [i \in Conns |-> IF i <= Len(s) THEN s[i] ELSE "absent"]
 TReset == IsEvent("reset") /\ Reset(Pad(Ev.scripts), Ev.outcome)
 
+(* fake listener: the arrival is decided and logged in one critical section.  TCP: the event   *)
+(* is logged some time after the kernel completed (or refused) the connection, so the arrival *)
+(* itself is a silent step and the event only states its result.                              *)
 TArrive == /\ IsEvent("arrive") /\ Ev.i \in Strays
-           /\ Arrive(Ev.i) /\ (Ev.ok <=> lopen)
+           /\ IF Rendezvous
+              THEN Arrive(Ev.i) /\ (Ev.ok <=> lopen)
+              ELSE /\ (Ev.ok => hpc[Ev.i] \notin {"none", "refused"})
+                   /\ (~Ev.ok => hpc[Ev.i] = "refused")
+                   /\ UNCHANGED vars
 
 TAccept == IsEvent("accept") /\ AAcceptOf(Ev.i)
 
@@ -105,7 +112,8 @@ TSilent ==
        \/ \E i \in Conns : HRead(i) \/ HReplyFail(i) \/ HCas(i) \/ HCloseListener(i)
        \/ CCheck2 \/ CWriteErr \/ CRead \/ SelectConn \/ TimerFires \/ SendAction
        \/ (~Rendezvous /\ (AAccept \/ CDial \/ CReturn \/ CWrite("hello") \/ ProxyReply \/ ProxyEof
-                           \/ (\E i \in Conns : HReply(i))))
+                           \/ (\E i \in Conns : HReply(i))
+                           \/ (\E i \in Strays : Arrive(i))))
 
 TNext == TReset \/ TArrive \/ TAccept \/ TLClose \/ TW \/ TClose \/ TGot
          \/ TCDial \/ TCRet \/ TCWrite \/ TCReply \/ TPEof \/ TCClose
